@@ -65,7 +65,7 @@ def detect(patch, ids):
         print("REFUSING: /repo has local modifications"); sys.exit(2)
     rc, out = sh(f"git apply {patch}", cwd="/repo")
     if rc != 0:
-        print("patch does not apply to /repo:", out); sys.exit(2)
+        return {"error": "patch does not apply to /repo: " + out[-300:]}
     results = {}
     try:
         for pid in ids:
